@@ -293,7 +293,83 @@ def _check_model(case):
     return None
 
 
+# ------------------------------------------------------------------------------------ bounded: a workbook compiled to a function
+COMPILE_CELLS = {'A1': 1, 'A2': '=NOW()', 'A3': '=A1+A2', 'A4': '=A1+NOW()', 'A5': '=A2+0', 'A6': '=A1*RAND()+1', 'A7': '=A1*2',
+                 'A8': '=IF(A1>0,TODAY()+A1,0)'}
+# outputs whose only volatile ingredient is a cell that does not depend on the function's input (A2)
+COMPILE_VIA_INDEPENDENT_CELL = {'A3', 'A5'}
+
+
+def _compile_cases(tier, rng):
+    return [('compile', out) for out in ('A3', 'A4', 'A5', 'A6', 'A7', 'A8')]
+
+
+def _check_compile(case):
+    """ExcelModel.compile(inputs=[A1], outputs=[cell]) called three times with the same argument and the clock / random source
+    advanced in between: an output that involves a volatile call changes every time, a non-volatile one never."""
+    import datetime
+    import logging
+    import os
+    import shutil
+    import tempfile
+    import numpy as np
+    import openpyxl
+    import formulas
+    import formulas.functions.date as fd
+    _, out = case
+    counter = {'n': 1, 'r': 0}
+
+    class _DT(datetime.datetime):
+        @classmethod
+        def now(cls, tz=None):
+            return datetime.datetime(2031, 3, 13) + datetime.timedelta(days=counter['n'], seconds=11 * counter['n'])
+    real_dt, real_rand = fd.datetime.datetime, np.random.rand
+
+    def fake_rand(*a):
+        counter['r'] += 1
+        return ((counter['n'] * 1000 + counter['r']) * 0.0137) % 1.0
+    logging.disable(logging.CRITICAL)
+    d = tempfile.mkdtemp(prefix='verif_c13c_')
+    fd.datetime.datetime, np.random.rand = _DT, fake_rand
+    try:
+        wb = openpyxl.Workbook()
+        ws = wb.active
+        ws.title = 'S'
+        for ref, v in COMPILE_CELLS.items():
+            ws[ref] = v
+        path = os.path.join(d, 'book.xlsx')
+        wb.save(path)
+        m = formulas.ExcelModel().loads(path).finish()
+        f = m.compile(inputs=["'[book.xlsx]S'!A1"], outputs=["'[book.xlsx]S'!%s" % out])
+        vals = []
+        for step in (2, 3, 5):
+            counter['n'], counter['r'] = step, 0
+            r = f(10)
+            vals.append(np.asarray(r.value if hasattr(r, 'value') else r, object).ravel()[0])
+    except Exception as ex:
+        return 'compile([A1], [%s]) raised %s: %s' % (out, type(ex).__name__, str(ex)[:100])
+    finally:
+        fd.datetime.datetime, np.random.rand = real_dt, real_rand
+        logging.disable(logging.NOTSET)
+        shutil.rmtree(d, ignore_errors=True)
+    volatile = out != 'A7'
+    if volatile and len({repr(v) for v in vals}) != 3:
+        return 'the function compiled from the workbook for output %s = %s returns %r on three calls with the clock / random source advanced' % (
+            out, COMPILE_CELLS[out], vals)
+    if not volatile and len({repr(v) for v in vals}) != 1:
+        return 'the non-volatile output %s = %s changes between calls: %r' % (out, COMPILE_CELLS[out], vals)
+    return None
+
+
+def _classify_compile(case, detail):
+    return 'KF-C13-1' if case[1] in COMPILE_VIA_INDEPENDENT_CELL and 'returns' in detail else None
+
+
 BOUNDED = [
+    Stage('B3:workbook-compiled-to-a-function-re-evaluates-volatile-cells', 'C13', _compile_cases, _check_compile,
+          'one workbook (input A1; NOW() in its own cell, inside an input-dependent formula, behind IF; RAND(); dependents) compiled with '
+          'ExcelModel.compile for six outputs, each function called three times with the clock / random source advanced', parallel=False,
+          classify=_classify_compile),
     Stage('B2:loaded-copied-and-reimported-workbooks-recalculate-volatile-cells', 'C13', _model_cases, _check_model,
           '4 workbooks (volatile cells and dependents, formulas mixing a constant reference with a volatile call, defined names whose formula is volatile / constant / a cell, nested volatile calls) '
           'x 3 ways of obtaining the model (loaded from file, deep copy, JSON re-import), each calculated 3 times with the clock / random '
